@@ -20,6 +20,7 @@ pub use crate::collector::global_collector::verif_run_collector_cycle as run_col
 pub use crate::collector::global_collector::CollectorStats;
 pub use crate::collector::id::verif_set_local_id as set_local_id;
 pub use crate::local::local_span_stack::verif_set_stack_capacity as set_stack_capacity;
+pub use crate::local::local_span_stack::verif_set_next_span_line_epoch as set_next_span_line_epoch;
 
 /// Where the calling thread is about to go.
 #[derive(Clone, Copy, Debug, PartialEq, Eq)]
